@@ -580,15 +580,18 @@ def is_nontrivial(labels) -> bool:
 
 KNOWN_NONSTR = "validator-nonstring-key-typeerror"
 KNOWN_NAN = "validator-nan-passes-one-sided-range"
-KNOWN_HINT = "validator-suggestion-hashseed"
+KNOWN_HINT = "validator-messages-depend-on-hashseed"
 KNOWN_CLI_PATH = "cli-validate-drops-path"
 KNOWN_CLI_JSON = "cli-validate-json-sniffs-error-output"
 
 _HINT_RE = re.compile(r" \(did you mean '[^'\n]*'\)")
+_POLICY_SET_RE = re.compile(r"scheduler\.policy must be one of \{[^}\n]*\}")
 
 
 def strip_hints(msg: str) -> str:
-    return _HINT_RE.sub(" (did you mean ?)", msg)
+    """Message with the two set-order dependent fragments masked (the narrow exclusion of KNOWN_HINT):
+    the did-you-mean suggestion and the repr of the scheduler policy set."""
+    return _POLICY_SET_RE.sub("scheduler.policy must be one of {?}", _HINT_RE.sub(" (did you mean ?)", msg))
 
 
 def _is_known(rec, fid) -> bool:
@@ -858,7 +861,7 @@ def check_cli_inprocess(cfg, case, rec, tmpdir):
     path = os.path.join(tmpdir, "cfg.yaml")
     with open(path, "w", encoding="utf-8") as f:
         f.write(text)
-    for flags in ([], ["--json"], ["--strict"]):
+    for flags in (([], ["--json"], ["--strict"]) if view["ok"] else ([],)):
         argv = ["validate_config.py", *flags, path]
         try:
             rc, out, err = _run_main(argv)
@@ -1223,21 +1226,16 @@ def _g_sched(draw):
     return {("scheduler", "quantum_ms"): q, ("scheduler", "budgets", "wall_ms"): w}
 
 
-def _g_fixtures(draw):
-    en = draw(st.booleans())
-    return {("t3", "llm", "fixtures", "enabled"): en, ("t3", "llm", "fixtures", "path"): "fixtures/llm/none.jsonl" if en else draw(st.sampled_from([None, "p.jsonl"]))}
-
-
-def _g_reflection(draw):
+def _g_llm(draw):
+    """fixtures + reflection backend drawn jointly (reflection backend llm requires enabled fixtures with a path)."""
     be = draw(st.sampled_from(["rulebased", "llm"]))
-    out = {("t3", "reflection", "backend"): be, ("t3", "allow_reflection"): draw(st.booleans())}
-    if be == "llm":
-        out[("t3", "llm", "fixtures", "enabled")] = True
-        out[("t3", "llm", "fixtures", "path")] = "fixtures/llm/none.jsonl"
-    return out
+    en = True if be == "llm" else draw(st.booleans())
+    return {("t3", "reflection", "backend"): be, ("t3", "allow_reflection"): draw(st.booleans()),
+            ("t3", "llm", "fixtures", "enabled"): en,
+            ("t3", "llm", "fixtures", "path"): "fixtures/llm/none.jsonl" if en else draw(st.sampled_from([None, "p.jsonl"]))}
 
 
-GROUPS = [_g_weights, _g_clamp, _g_merge_split, _g_policy, _g_sched, _g_fixtures, _g_reflection]
+GROUPS = [_g_weights, _g_clamp, _g_merge_split, _g_policy, _g_sched, _g_llm]
 _GROUPED = {("t4", "weight_min"), ("t4", "weight_max"), ("graph", "update", "clamp_min"), ("graph", "update", "clamp_max"),
             ("graph", "decay", "floor"), ("graph", "merge", "min_avg_w"), ("graph", "split", "weak_edge_thresh"),
             ("t3", "policy", "tau_low"), ("t3", "policy", "tau_high"), ("scheduler", "quantum_ms"), ("scheduler", "budgets", "wall_ms"),
@@ -1250,6 +1248,7 @@ _GATES = [("perf", "enabled"), ("t2", "hybrid", "enabled"), ("t2", "quality", "e
           ("t2", "quality", "shadow"), ("perf", "parallel", "t1"), ("perf", "parallel", "t2"), ("graph", "merge", "enabled"),
           ("graph", "split", "enabled"), ("graph", "promotion", "enabled"), ("perf", "snapshots", "delta_mode")]
 
+_FREE_PATHS = sorted(p for p, sp in LEAVES.items() if sp[0] == "free")
 _WORLD_TEXTS = ["apple pear", "kiwi", "apple", "pear fig APPLE", "zzz", ""]
 
 
@@ -1268,13 +1267,28 @@ def runnable_cases(draw):
     if ("perf", "parallel", "enabled") in assigns and draw(st.booleans()):
         assigns[("perf", "parallel", "max_workers")] = draw(st.sampled_from([2, 4]))
     items = [[list(p), enc(v)] for p, v in sorted(assigns.items())]
+    # lenient part: values the table does NOT document (wrong types, NaN, huge, non-string keys) on pass-through leaves,
+    # coercible junk on validated leaves, sections replaced by scalars. Whatever the validator ACCEPTS must still run.
+    lenient = []
+    for _ in range(draw(st.sampled_from([0, 0, 1, 1, 2, 3]))):
+        kind = draw(st.sampled_from(["free", "free", "free", "validated", "section"]))
+        if kind == "free":
+            p = draw(st.sampled_from(_FREE_PATHS))
+            v = draw(st.sampled_from(WRONG + SPECIAL + [{1: 1, "a": 2}, {None: 1}, {"mode": 5}, {"rate": "x"}, {"supports": "x"}, ["bogus", 1], [None]]))
+        elif kind == "validated":
+            p = draw(st.sampled_from(_SOLO_PATHS))
+            v = draw(st.sampled_from(WRONG + SPECIAL))
+        else:
+            p = draw(st.sampled_from([q for q in SECTION_PATHS if q]))
+            v = draw(st.sampled_from(SECTION_REPLACEMENTS))
+        lenient.append([list(p), enc(copy.deepcopy(v))])
     # world: fixed non-trivial core + drawn variation
     w_ab = draw(st.sampled_from([0.9, 1.0, 0.5, -0.5]))
     rel = draw(st.sampled_from(["supports", "associates", "contradicts", "weird"]))
     extra_edge = draw(st.booleans())
     n_eps = draw(st.integers(3, 6))
     texts = [draw(st.sampled_from(_WORLD_TEXTS[:4])), draw(st.sampled_from(_WORLD_TEXTS))]
-    return {"assign": items, "world": {"w_ab": w_ab, "rel": rel, "extra_edge": extra_edge, "n_eps": n_eps}, "texts": texts}
+    return {"assign": items, "lenient": lenient, "world": {"w_ab": w_ab, "rel": rel, "extra_edge": extra_edge, "n_eps": n_eps}, "texts": texts}
 
 
 def build_overrides(items):
@@ -1342,20 +1356,70 @@ def needs_network(cfg) -> bool:
     return str(t3.get("backend")) == "llm" and str((t3.get("llm") or {}).get("provider")) == "ollama"
 
 
+KNOWN_PASSTHROUGH = "validator-passthrough-leaves-unvalidated"
+KNOWN_NONMAPPING = "validator-nonmapping-perf-quality-leaks"
+KNOWN_PAR_T2 = "runnable-parallel-t2-fanout-typeerror"
+
+# stage functions that read the pass-through leaves with int()/float()/.get()/iteration/JSON-sort (root cause frames)
+_PASSTHROUGH_FRAMES = {"t1.py:t1_propagate", "t1.py:_t1_one_graph", "t1.py:_compute_decay", "core.py:t2_semantic", "cache.py:stable_key",
+                       "core.py:_init_index_from_cfg", "t1.py:_get_cache"}
+
+
+def _undocumented_passthrough(case) -> bool:
+    """The case assigns an undocumented value (not one of the table's examples) to a pass-through leaf."""
+    for p, v in case.get("lenient") or []:
+        spec = LEAVES.get(tuple(p))
+        if spec is not None and spec[0] == "free" and not any(canon(dec(v)) == canon(ex) for ex in spec[1]):
+            return True
+    return False
+
+
+def _known_runnable(case, cfg, e, rec) -> bool:
+    """Narrow exclusions for listed findings (root cause frame + the specific config feature responsible)."""
+    rc = _root_cause(e)
+    frame = rc.split("@", 1)[1] if "@" in rc else ""
+    if frame == "parallel.py:<lambda>" and isinstance(e, TypeError) and get_path(cfg, ("perf", "parallel", "t2")) is True:
+        return _is_known(rec, KNOWN_PAR_T2)
+    perf, q = cfg.get("perf"), get_path(cfg, ("t2", "quality"))
+    if isinstance(e, AttributeError) and ((perf and not isinstance(perf, dict)) or (q and not isinstance(q, dict))):
+        return _is_known(rec, KNOWN_NONMAPPING)
+    if frame in _PASSTHROUGH_FRAMES and isinstance(e, (TypeError, ValueError, AttributeError, OverflowError)) and _undocumented_passthrough(case):
+        return _is_known(rec, KNOWN_PASSTHROUGH)
+    return False
+
+
 def check_runnable(case, rec=None):
     from harness import world as W, observe
     from clematis.errors import ConfigError
 
     overrides = build_overrides(case["assign"])
+    lenient = case.get("lenient") or []
+    for p, v in lenient:  # applied last: may replace whole sections
+        d = _descend(overrides, tuple(p[:-1]))
+        if d is not None:
+            d[p[-1]] = dec(v)
     W.reset_engine_globals()
-    labels = []
+    labels = ["lenient" if lenient else "table_valid"]
     with W.sandbox("c14_run_") as root:
         eng = observe.Engine(build_world(case["world"]), root)
+        base = eng.cfg({})
+        o = copy.deepcopy(overrides)
+        if not isinstance(o.get("t4", {}), dict):
+            o.pop("t4")  # keep the snapshot dir inside the sandbox even when the lenient part mangles t4
         try:
-            cfg = eng.cfg(copy.deepcopy(overrides))
-            base = eng.cfg({})
+            cfg = eng.cfg(o)
         except ConfigError as e:
+            if lenient:
+                if rec is not None:
+                    rec.case(nontrivial=False, labels=["lenient_rejected"])
+                return
             raise Violation(f"validator rejects a configuration the documented table allows: {str(e)[:300]}", case, "rejects-documented-valid")
+        except TypeError as e:
+            if lenient and _lev_typeerror(e, o):
+                if rec is not None:
+                    rec.case(nontrivial=False, labels=["lenient_nonstring_key"])
+                return
+            raise
         ndiff = _leaf_diff(cfg, base)
         if needs_network(cfg):
             if rec is not None:
@@ -1366,6 +1430,9 @@ def check_runnable(case, rec=None):
             r = eng.turn("A", text, cfg, turn_id=i + 1, now_ms=W.NOW_MS + i * 1000)
             if r["exc"] is not None:
                 e = r["exc_obj"]
+                if _known_runnable(case, cfg, e, rec):
+                    labels.append("excluded_known")
+                    break
                 raise Violation(f"accepted config makes turn {i + 1} raise {r['exc'][:300]} [{_root_cause(e)}]", case, "turn-raises:" + _root_cause(e))
             turns_ok += 1
             if (r.get("t1") or {}).get("counters", {}).get("pops"):
@@ -1584,7 +1651,41 @@ def probe_cli_json():
         shutil.rmtree(work, ignore_errors=True)
 
 
+def _probe_turn(overrides, want_exc):
+    from harness import world as W, observe
+    import logging
+
+    logging.disable(logging.CRITICAL)
+    try:
+        W.reset_engine_globals()
+        with W.sandbox("c14_probe_") as root:
+            eng = observe.Engine(build_world({"w_ab": 0.9, "rel": "supports", "extra_edge": False, "n_eps": 3}), root)
+            try:
+                cfg = eng.cfg(overrides)
+            except Exception:
+                return False  # rejected now
+            r = eng.turn("A", "apple pear", cfg, turn_id=1, now_ms=W.NOW_MS)
+            return r["exc"] is not None and isinstance(r["exc_obj"], want_exc)
+    finally:
+        logging.disable(logging.NOTSET)
+
+
+def probe_passthrough():
+    return _probe_turn({"t1": {"radius_cap": None}}, TypeError) or _probe_turn({"t2": {"tiers": None}}, TypeError)
+
+
+def probe_nonmapping():
+    return _probe_turn({"perf": 5}, AttributeError)
+
+
+def probe_par_t2():
+    return _probe_turn({"perf": {"enabled": True, "parallel": {"enabled": True, "max_workers": 2, "t2": True}}}, TypeError)
+
+
 KNOWN_PROBES = {
+    KNOWN_PASSTHROUGH: probe_passthrough,
+    KNOWN_NONMAPPING: probe_nonmapping,
+    KNOWN_PAR_T2: probe_par_t2,
     KNOWN_NONSTR: probe_nonstring_key,
     KNOWN_NAN: probe_nan,
     KNOWN_HINT: probe_hint,
@@ -1593,9 +1694,9 @@ KNOWN_PROBES = {
 }
 
 SUBCHECKS = [
-    Sub("total", sub_total, quick={"n": 750}, thorough={"n": 6500}, shards_quick=4, shards_thorough=16, replay=replay_total),
+    Sub("total", sub_total, quick={"n": 600}, thorough={"n": 6500}, shards_quick=4, shards_thorough=16, replay=replay_total),
     Sub("hashseed", sub_hashseed, quick={"n": 200}, thorough={"n": 2500}, shards_quick=2, shards_thorough=8, replay=replay_hashseed),
     Sub("cli", sub_cli, quick={"n": 10}, thorough={"n": 95}, shards_quick=4, shards_thorough=16, replay=replay_cli),
     Sub("runnable", sub_runnable, quick={"n": 75}, thorough={"n": 650}, shards_quick=4, shards_thorough=16, replay=replay_runnable),
-    Sub("atheris", sub_atheris, quick={"runs": 3000}, thorough={"runs": 200000}, shards_quick=1, shards_thorough=4, replay=replay_total),
+    Sub("atheris", sub_atheris, quick={"runs": 1500}, thorough={"runs": 200000}, shards_quick=1, shards_thorough=4, replay=replay_total),
 ]
